@@ -212,6 +212,40 @@ def paren_rule(chk, fx):
     chk.floor('conditional-expression templates of the transpiler', n, 2)
 
 
+def classbody_rule(chk, fx):
+    chk.rule('C17-classbody', 'a method stays an attribute of its class: PyScriptGenerator::transpile_def writes `global <name>` (its device for definitions inside helper functions) only '
+                              'on a path that excludes the level of a class body, and transpile_classdef marks that level around the block of methods — `global show` inside `class C:` '
+                              'binds the method at module level and `c.show()` raises AttributeError')
+    fd = fx.fn(TR, 'PyScriptGenerator::transpile_def')
+    fc = fx.fn(TR, 'PyScriptGenerator::transpile_classdef')
+    site = None
+    for n, ctx in T.walk_ctx(fd['body']):
+        if n.get('k') == 'Call' and (n.get('fn') or '').endswith("Arguments::<'a>::new") and n.get('a'):
+            bs = (T.peel(n['a'][0]).get('v') or {}).get('bytes')
+            if bs and any(l.startswith('global ') for l in fmt_literals(bs)):
+                site = (n, ctx)
+    if site is None:
+        chk.ok('C17-classbody', 'no-global', sample='transpile_def writes no `global` statement')
+        return
+    n, ctx = site
+    conds = [T.show(c[1]) for c in ctx if c[0] == 'if']
+    fields = set()
+    for c in ctx:
+        if c[0] == 'if':
+            for x in T.walk(c[1]):
+                if x.get('k') == 'Field':
+                    fields.add(x['n'])
+    marker = sorted(f for f in fields if f != 'level' and f != 'globals')
+    marked = [f for f in marker if any(a.get('k') in ('Assign',) and T.peel(a['x']).get('n') == f for a in T.walk(fc['body']))
+              or any(c.get('k') == 'MCall' and c['n'] in ('replace', 'insert', 'take', 'push') and T.peel(c['r']).get('n') == f for c in T.calls(fc['body']))]
+    if marked:
+        chk.ok('C17-classbody', 'guarded', sample='`global` is written under %s; transpile_classdef sets %s' % (conds[:1], marked))
+    else:
+        chk.bad('C17-classbody', 'PyScriptGenerator::transpile_def', 'global-in-class-body', 'transpile_def writes `global <name>` for every definition below the top level (conditions: %s) '
+                'and nothing transpile_classdef sets takes part in them: a method `show` of class C becomes a module-level function, `c.show()` raises AttributeError from the script '
+                'while the bytecode prints the value' % (conds[:2] or 'none'), TR, n.get('l'))
+
+
 def kwname_rule(chk, fx):
     chk.rule('C17-kwname', 'the two sides of a keyword argument agree on the Python name: PyScriptGenerator::transpile_params names a parameter with transpile_name (which mangles local '
                            'names with their definition site, `y_L1_C6`), so transpile_args must name the keyword of a call to an Erg subroutine through the same function — a name built '
@@ -411,5 +445,6 @@ def run(chk):
     paren_rule(chk, fx)
     prelude_rule(chk, fx)
     kwname_rule(chk, fx)
+    classbody_rule(chk, fx)
     return ('Table rule across crates: the characters produced by the escape arms of the three string lexers (typed HIR) against the replace chain of PyScriptGenerator::escape_str. '
             'Behavioural equivalence of the transpiled script and the bytecode is not decided.'), {'exhaustive': True}
